@@ -469,6 +469,8 @@ class DocHarness(Harness):
             ext = getattr(ctx, 'c02_ext', '')
             ctx.tv = {'script': ([{'op': 'new_graph', 'refs_extension': ext}] if ext else []) + self.script(in_n, ctx.model()) + [dict({'op': 'format_twice', 'key': 'd/a'}, **({'refs_extension': ext} if ext else {}))], 'expect': ([None] if ext else []) + [None, out['arena'], out['tree'], out['project'], None],
                       'post': ['doc', bool([v for v in ctx.violations if not v['law'].startswith('C02.formatting')]), getattr(ctx, 'c02_text_same', None) if self.second_pass else 'off']}
+        if getattr(ctx, 'c02_sample', None):
+            sample = dict(sample, **ctx.c02_sample)
         return sample
 
     def text_fixpoint(self, ctx, ex, blocks, out, key):
@@ -555,6 +557,7 @@ class DocHarness(Harness):
         ctx.c02_why = why
         ctx.c02_text_same = ctx.law('C02.formatting-the-formatted-text-changes-nothing', same, {'input': ctx.input_desc, 'first': plain(text1).replace('\ue000', '#'), 'second': plain(text2).replace('\ue000', '#'), 'why': why})
         ctx.cover('text-formatted-twice')
+        ctx.c02_sample = {'refs_extension': ext, 'first_format': plain(text1).replace('\ue000', '#')[:200], 'second_format': plain(text2).replace('\ue000', '#')[:200]}
 
     def tv_pick(self, trace):
         import zlib
